@@ -1,5 +1,7 @@
-/* C02, harness 1: the real prwlock-general.c on top of the real pmutex-posix.c and
- * pcondvariable-posix.c over the pthread model, CBMC native threads.
+/* C02, harness 1 (CBMC native threads).  Units under test, selected by the query:
+ *   general: the real prwlock-general.c on top of the real pmutex-posix.c and pcondvariable-posix.c over the
+ *            pthread model (mutex + 2 condition variables);
+ *   posix  : the real prwlock-posix.c over the pthread model's rwlock.
  *
  * Threads are configured by -DT1=.. -DT2=.. [-DT3=..] with roles
  *   'R' reader_lock, 'W' writer_lock, 'r' reader_trylock, 'w' writer_trylock   (one round each; ROUNDS=2: two)
@@ -8,6 +10,8 @@
  * is decided by the transition-time check of the pthread model (vm_thread_finish / cond_wait).
  * -DVM_SPURIOUS=n: every thread may be woken spuriously up to n times.
  * -DSHARE_WITNESS: witness that two readers are inside at the same time.
+ * -DRENDEZVOUS (two 'R' threads only): each reader stays inside until the other one is inside too; the run must still
+ *   complete (a reader lock that excludes other readers blocks both for ever -> deadlock assertion of the model).
  */
 #include "verif.h"
 #include "pthread_model.h"
@@ -25,10 +29,7 @@ int g_readers, g_writers;        /* ghost: threads between lock-return and unloc
 int g_shared_seen;               /* two readers were inside simultaneously */
 int g_acq;                       /* number of successful acquisitions (all threads) */
 
-/* allocation: before the first spawn only; fixed static blocks (no allocator in the picture) */
-static unsigned long long pool[6][16]; static int pool_n;
-ppointer p_malloc0(psize n) { VASSERT(n <= sizeof pool[0] && pool_n < 6, "harness pool large enough"); return pool[pool_n++]; }
-void p_free(ppointer p) { (void) p; }
+#include "C01_store.h"
 
 static void enter_read(void) {
   VATOMIC_BEGIN();
@@ -53,7 +54,11 @@ static void act(char role) {
   case 'R':
     ok = p_rwlock_reader_lock(L);
     VASSERT(ok == TRUE, "reader_lock returns TRUE (no platform failure in this run)");
-    enter_read(); leave_read();
+    enter_read();
+#ifdef RENDEZVOUS   /* two reader threads (ids 0, 1): neither leaves before the other one is inside as well */
+    vm_event_set(vm_self); vm_event_wait(1 - vm_self);
+#endif
+    leave_read();
     ok = p_rwlock_reader_unlock(L);
     VASSERT(ok == TRUE, "reader_unlock returns TRUE");
     break;
@@ -87,6 +92,9 @@ static void finish(void) {
 #ifdef SHARE_WITNESS
     if (g_shared_seen) VWITNESS("two readers were inside at the same time");
 #endif
+#ifdef RENDEZVOUS
+    VASSERT(g_shared_seen, "readers share: both readers were inside at the same time");
+#endif
   }
   VATOMIC_END();
 }
@@ -100,13 +108,13 @@ static void thread(int id, char role) {
 void harness(void) {
   L = p_rwlock_new();
   VASSERT(L != NULL, "p_rwlock_new succeeds");
-  vm_thread_register(1); vm_thread_register(2);
+  vm_thread_register(0); vm_thread_register(1);
 #ifdef T3
-  vm_thread_register(3);
+  vm_thread_register(2);
 #endif
-  __CPROVER_ASYNC_1: thread(1, T1);
-  __CPROVER_ASYNC_2: thread(2, T2);
+  __CPROVER_ASYNC_1: thread(0, T1);
+  __CPROVER_ASYNC_2: thread(1, T2);
 #ifdef T3
-  __CPROVER_ASYNC_3: thread(3, T3);
+  __CPROVER_ASYNC_3: thread(2, T3);
 #endif
 }
